@@ -72,6 +72,30 @@ CLAIMED = {
         note="Conformance of all interleavings to a reference automaton is not decided; out-of-range block indices are not decided. A-OTA-RANGE as in C01.",
         ref="DESIGN.md section 4 C10",
     ),
+    "C11": dict(
+        technique="sibling agreement over the syntax tree: constructor attribute sets vs JSON encoder keys vs __setstate__ reset list vs __getstate__ renames vs decoder recognisers",
+        text="Table-agreement clauses for both formats: Sensor's constructor attributes = JSON encoder keys + exactly the transient set {new_state, queue, reboot}; __setstate__ resets exactly that set, to the constructor's initial expressions, unconditionally after the restore loop; __getstate__ renames exactly the private attributes that sit behind a property with a setter (so both formats persist the same projection under the same names); ChildSensor's constructor attributes = encoder keys; every encoded key is restored through a name the class accepts; the decoder's recognisers use encoder keys, are mutually exclusive, and integer keys are restored after them.",
+        note="Value-level exactness (Unicode, JSON number/str fidelity) and equality of the two formats on actual states are not decided. The transient set is taken from the property statement.",
+        ref="DESIGN.md section 4 C11",
+    ),
+    "C12": dict(
+        technique="trace predicates over all abstract paths (normal and one exceptional path per fallible file operation) of save_sensors and safe_load_sensors for both formats, with the name-pattern dispatch resolved; open-mode scan",
+        text="The temp-write / fsync / move-aside / move-in / drop-old protocol is decided on every path: only the temp name (different from main and backup) is opened for writing; dump, flush, fsync(fileno) happen in that order on the same handle inside the with block; every rename/remove follows the completed temp write; the temp file is moved onto the main file exactly once; a move-aside of the old main precedes it and the backup's removal follows it, both under one condition; nothing else is removed; the dirty flag is cleared last; on every path where a file operation fails the flag is not cleared and the error propagates; the loader tries the backup exactly when the main load failed and promotes it by rename before reading. Under this protocol every crash point leaves a complete old or new file.",
+        note="Assumed: POSIX rename atomicity; durability of renames without a directory fsync and Windows rename-over-existing are not decided. The protocol is stated over the operations that exist, so an equivalent protocol (one os.replace) passes.",
+        ref="DESIGN.md section 4 C12",
+    ),
+    "C13": dict(
+        technique="exception-escape analysis of safe_load_sensors for both formats against the documented raise sets of pickle.load / json.load; decode-before-apply and fallback predicates over the same paths",
+        text="No documented content-error class of either decoder (pickle: UnpicklingError, EOFError, AttributeError, ImportError, IndexError, ValueError; json: JSONDecodeError, UnicodeDecodeError) can escape safe_load_sensors, for the main and for the backup attempt, and no handler re-raises; the sensor map is mutated only by one update() of a completed decode (no partial merge, nothing applied on a failing path); a damaged backup is removed and not retried, leaving an empty network.",
+        note="Exceptions outside the documented sets (crafted pickles) and valid JSON of the wrong shape are not decided; OSError is treated as an environment fault, not a content error.",
+        ref="DESIGN.md section 4 C13",
+    ),
+    "C15": dict(
+        technique="exceptional-path analysis of the two scheduler closures with save_sensors inlined (must-pass-through the re-arm on every path; loop-exit analysis of the asyncio task)",
+        text="Threaded flavour: on every path through schedule_save - normal, and exceptional for every error class any file operation or the dump can raise in the external model, for both formats - exactly one Timer whose target is the closure itself is constructed and started after the save attempt and its cancel is published to _cancel_save; no exception escapes. Asyncio flavour: no path leaves the save loop except through CancelledError; a failing save is caught, followed by the sleep and the next iteration (no busy loop); the task's cancel is published.",
+        note="The period is reported, not judged. Integrity of the old file under a concurrent insert is covered as the RuntimeError failure class of the dump together with C12-R1/R3.",
+        ref="DESIGN.md section 4 C15",
+    ),
 }
 
 NOT_APPLICABLE = {
